@@ -224,8 +224,11 @@ class Mode(LogMixin):
 
         self._setup_device_control_events()
 
+        # do not hand the queue of the event which started us to the handlers of our own queue event. with
+        # use_wait_queue it is already locked and the first handler would block the start forever
+        starting_kwargs = {key: value for key, value in kwargs.items() if key != 'queue'}
         self.machine.events.post_queue(event=MODE_STARTING_EVENT_TEMPLATE.format(self.name),
-                                       callback=self._started, **kwargs)
+                                       callback=self._started, **starting_kwargs)
         '''event: mode_(name)_starting
 
         desc: The mode called "name" is starting.
